@@ -673,6 +673,18 @@ def r_drainlit(f):
                 if e == ("param", 2): return I_
                 if is_dim(e, "num_cols"): return C_
                 if e[0] == "call" and e[2] == "len" and any(x[0] == "field" and x[2] == fi["data"] for x in walk(e)): return L_
+                if e[0] == "call" and len(e) > 4 and isinstance(e[4], dict) and e[3] and strip(e[3][0]) in (("refmut", ("deref", ("param", 1))), ("param", 1), ("deref", ("param", 1))):
+                    # a private helper on the array that returns the buffer length it read before lowering it
+                    hb = f.crate_fn_for_call(e[4])
+                    if hb is not None and hb.blocks:
+                        hd = Dfx(hb)
+                        rets = [strip(hd.rvalue(st2["rv"])) for _, _, st2 in hb.stmts() if st2["k"] == "assign" and st2["p"]["local"] == 0 and not st2["p"]["proj"]]
+                        if len(rets) == 1 and rets[0][0] == "call" and rets[0][2] == "len" and any(x[0] == "field" and x[2] == fi["data"] for x in walk(rets[0])):
+                            lenb = [bi2 for bi2, t2, fn2 in hb.calls() if fn2 and fn2["name"] == "len" and fn2["path"].startswith("alloc::vec::Vec")]
+                            wrb = [bi2 for bi2, t2, fn2 in hb.calls() if fn2 and fn2["name"] in ("set_len", "truncate", "clear", "drain", "resize", "extend", "push")]
+                            dom2 = hb.dominators()
+                            if len(lenb) == 1 and all(lenb[0] in dom2.get(w, set()) and w != lenb[0] for w in wrb):
+                                return L_
                 if e[0] == "bin" and e[1].replace("WithOverflow", "").replace("Unchecked", "") in ("Add", "Sub", "Mul"):
                     a, c = poly(e[2]), poly(e[3])
                     if a is None or c is None: return None
